@@ -75,6 +75,7 @@ FIXED = [
  ('F53', ['C03'], "early abandoning skipped the free starts of psi-relaxation in all kernels (ec started at 0, stale sc on rows i <= psi_1b): psi=(2,0,1,0) with max_dist 20% above the distance returned inf for 449 of 5300 random pairs, use_pruning a larger value for 33", 'fix: early abandoning (max_dist / use_pruning) skipped the free starts'),
  ('F55', ['C08', 'C18'], "dtw_warping_paths_affinity_ndim{,_euclidean} with only_triu: the loop blanking the cells left of the diagonal ran to column ri without looking at the row's last column -- for len(s1) > len(s2) it wrote behind the row and behind the matrix (lengths 12 and 7, window 2: malloc(): invalid size)", 'fix: affinity warping paths with only_triu wrote past the row'),
  ('F56', ['C16'], "KMeans.fit_fast and KMeans.kmedoids_centers read/wrote `self.dists_options.use_c` although dists_options is a dict: fit_fast(series) and fit with initialize_with_kmedoids=True raised AttributeError on every call", 'fix: KMeans.fit_fast and kmedoids_centers read use_c'),
+ ('F57', ['C07', 'C11'], "dtw_ndim.distance_matrix(parallel=True, use_c=False): _distance_with_params_ndim passed use_ndim=True next to **options, and the options (DTWSettings.kwargs()) contain use_ndim: TypeError 'multiple values for keyword argument' on every call", 'fix: multiprocessing n-D distance matrix in pure Python passed use_ndim twice'),
  ('F16', ['C18'], "dtw_wps_positivize was not the inverse of dtw_wps_negativize: negativize(2,6,2,6,True) then positivize left 11 cells negative", 'fix: dtw_wps_positivize was not the inverse'),
  ('F51', ['C18'], "non-compact LocalConcurrences reset left consumed (negated) cells negative: kbest_matches(restart=True) after a first search returned other matches", 'fix: LocalConcurrences reset did not restore'),
  ('F52', ['C18'], "kbest_matches(buffer>0) flipped signs over overlapping windows: cells of a match became positive again and were reused (e.g. seed-10 instance in DESIGN.md)", 'fix: a positive buffer in LocalConcurrences.kbest_matches'),
